@@ -286,7 +286,7 @@ func TestSets(t *testing.T) {
 		}
 		return
 	}
-	depth := r.Pick(5, 6)
+	depth := r.Pick(5, 7)
 	inits := [][]int{{}, {3, 1, 3, 2}, {4, 4, 1}}
 	for _, k := range []kind{kMap, kSorted} {
 		for _, init := range inits {
@@ -488,7 +488,7 @@ func TestRing(t *testing.T) {
 		}
 		return
 	}
-	depth := r.Pick(14, 18)
+	depth := r.Pick(14, 21)
 	for capN := 0; capN <= 6; capN++ {
 		n := 1 << depth
 		mon.Parallel(n, func(w, lo, hi int) {
